@@ -89,6 +89,9 @@ def scenarios(tier, rng):
     # (uniform kernel: partition of unity of the Lagrange polynomials, Properties_C05; rotation kernel: the monopole term)
     for H, chg in [(5, 1), (4, 0), (6, 1)] + ([(7, 1), (3, 0)] if tier != "quick" else []):
         sc.append(dict(H=H, B=rng.choice([3, 30, 10000000]), mode=rng.below(2), ex=0, N=900, seed=rng.below(1000), box=boxes[H % 3], charge=chg, fam=None, cons=True))
+    # polynomial exactness of the uniform kernel's interpolation operators (kernel 1 only; h_num answers ?unknown otherwise)
+    for H, chg in [(5, 1), (4, 0)] + ([(6, 1), (3, 1)] if tier != "quick" else []):
+        sc.append(dict(H=H, B=rng.choice([3, 30, 10000000]), mode=rng.below(2), ex=0, N=700, seed=rng.below(1000), box=boxes[(H + 1) % 3], charge=chg, fam=None, exact=True))
     # target/source variant (C05: "target/source and periodic variants"): separate particle sets, targets against the sum over sources
     for H, rel, ex in [(4, 0, 0), (5, 1, 0), (4, 2, 1), (5, 3, 0)] + ([(6, 1, 1), (3, 0, 0), (6, 3, 0)] if tier != "quick" else []):
         sc.append(dict(H=H, B=rng.choice([7, 30, 10000000]), mode=rng.below(2), ex=ex, N=300, Ns=700, seed=rng.below(1000), box=boxes[(H + rel) % 3], charge=1, fam=None, rel=rel))
@@ -104,6 +107,8 @@ def scenarios(tier, rng):
 
 
 def cmdline(s):
+    if "exact" in s:
+        return "nume %d %d %d %d %d %r %r %r %r %d" % (s["H"], s["B"], s["mode"], s["N"], s["seed"], s["box"][0], s["box"][1], s["box"][2], s["box"][3], s["charge"])
     if "cons" in s:
         return "numc %d %d %d %d %d %r %r %r %r %d" % (s["H"], s["B"], s["mode"], s["N"], s["seed"], s["box"][0], s["box"][1], s["box"][2], s["box"][3], s["charge"])
     if "rel" in s:
@@ -163,6 +168,16 @@ def run_num(pid, kernel, kname, tier, seed, extra=None, extra_props=()):
                     where = ":" + {1: "polar-axis", 8: "cell-centre", 64: "sparse"}.get(s["place"], "face-edge-axis" + ("" if dyadic else "-nondyadic"))
                 if line.startswith("ABORT"):
                     rep.violation(dict(kind="abort", clause="num" + where, has_input=True), "aborted on " + case + ": " + line, dict(case=case, impl=line)); continue
+                if "exact" in s:
+                    if kernel != 1 or line.startswith("?"): continue
+                    r = parse(line)
+                    if real == "double":
+                        for key, lim, what in (("dip", 1e-12, "the first moments of the multipoles of some level differ from those of the particles (P2M / M2M do not reproduce linear functions)"),
+                                               ("pot", 1e-11, "L2L + L2P do not reproduce a linear local field in the potentials"),
+                                               ("frc", 1e-7, "L2L + L2P do not reproduce the gradient of a linear local field")):
+                            if not (float(r[key]) <= lim):
+                                rep.violation(dict(kind="oracle", clause="exactness:" + key, has_input=True), "%s: relative deviation %s > %.0e on %s" % (what, r[key], lim, case), dict(case=case, impl=line))
+                    continue
                 r = parse(line)
                 if "cons" in s:
                     lim = 1e-12 if real == "double" else 2e-5
